@@ -275,6 +275,31 @@ theorem answer_cache_most_recent {H : Hashes} (hH : HashOk H) (expired : V → B
       else sabs H c.data k') :=
   ⟨ansSet_then_get hH expired inv k e, (ansGet_spec hH expired inv k).2.1, (ansGet_spec hH expired inv k).2.2⟩
 
+/-- **FailureCache: the production callers of compare-and-swap / compare-and-delete.**
+`record` (load – compute the next generation – `CompareAndSwap` on the
+identical current entry, retry on a lost race) and `ResetQuestion`/`ResetZone`
+(load – `CompareAndDelete`, retry), run without interference, need one pass:
+`record` publishes exactly `failSpec` (first generation for an absent key,
+nothing for a still active entry, the next generation for an expired one) and
+for a stored key changes no other key and not the length; a reset removes
+exactly that key and reports whether it was stored; `Lookup` hits only while
+the entry is active. -/
+theorem failure_cache_cas_cad_loops {H : Hashes} (hH : HashOk H) (init maxT now k fuel : Nat)
+    {c : Cache (Nat × Nat)} (inv : SegInv H c.data) :
+    (SegInv H (c.failRecord H init maxT now k (fuel + 1)).1.data ∧
+      (c.failRecord H init maxT now k (fuel + 1)).2 = failSpec init maxT now (sabs H c.data k) ∧
+      sabs H (c.failRecord H init maxT now k (fuel + 1)).1.data k = some (failSpec init maxT now (sabs H c.data k)) ∧
+      ((sabs H c.data k).isSome → (∀ k', k' ≠ k →
+          sabs H (c.failRecord H init maxT now k (fuel + 1)).1.data k' = sabs H c.data k') ∧
+        (c.failRecord H init maxT now k (fuel + 1)).1.len = c.len)) ∧
+    (SegInv H (c.failReset H k (fuel + 1)).1.data ∧
+      (c.failReset H k (fuel + 1)).2 = (sabs H c.data k).isSome ∧
+      (∀ k', sabs H (c.failReset H k (fuel + 1)).1.data k' = if k' = k then none else sabs H c.data k')) ∧
+    c.failLookup H now k = (match sabs H c.data k with
+      | some e => if now < e.2 then some e else none
+      | none => none) :=
+  ⟨failRecord_spec hH init maxT now k fuel inv, failReset_spec hH k fuel inv, failLookup_spec hH now k inv⟩
+
 /-- **Cache histories.** Starting from `cache.New(size)`, after any sequence
 of Add / Remove / CompareAndSwap / CompareAndDelete executed one at a time:
 the structure invariant holds, the length never exceeds the configured size,
@@ -572,6 +597,19 @@ example : ∃ c : Cache Nat, SegInv realHashes c.data ∧
   exact ⟨⟨(SegMap.new 4 0).set realHashes 7 2, 4⟩, s1,
     by rw [(answer_cache_most_recent realHashes_ok (fun t => t % 2 == 1)
       (c := ⟨(SegMap.new 4 0).set realHashes 7 2, 4⟩) s1 7 3).1]; rfl⟩
+
+-- a state (streak 1, retry at 2 s) renewed at 2 s: one CompareAndSwap to the second generation
+example : failSpec 2 16 2 (some (1, 2)) = (2, 6) := by decide
+example : ∃ c : Cache (Nat × Nat), SegInv realHashes c.data ∧ sabs realHashes c.data 7 = some (1, 2) ∧
+    (c.failRecord realHashes 2 16 2 7 1).2 = (2, 6) := by
+  obtain ⟨_, ⟨s1, s2, _⟩, _⟩ :=
+    segmap_refines realHashes_ok (segmap_new_spec (V := Nat × Nat) realHashes 4 0).1 7 ((1, 2) : Nat × Nat)
+  have h7 : sabs realHashes ((SegMap.new 4 0 : SegMap (Nat × Nat)).set realHashes 7 (1, 2)) 7 = some (1, 2) := by
+    rw [s2 7, if_pos rfl]
+  refine ⟨⟨(SegMap.new 4 0).set realHashes 7 (1, 2), 4⟩, s1, h7, ?_⟩
+  rw [(failure_cache_cas_cad_loops realHashes_ok 2 16 2 7 0
+    (c := ⟨(SegMap.new 4 0).set realHashes 7 (1, 2), 4⟩) s1).1.2.1, h7]
+  decide
 
 example : CReach 2 ⟨2, 0⟩ ⟨2, 0⟩ ∧ CReach 2 ⟨2, 0⟩ ⟨3, 1⟩ :=
   ⟨CReach.refl _, CReach.step (CReach.refl _) (CStep.insert ⟨2, 0⟩ true)⟩
